@@ -618,6 +618,48 @@ func same(x, y interface{}) (r string) {
 	}
 	r.Shuffle(len(vals), func(i, j int) { vals[i], vals[j] = vals[j], vals[i] })
 	b.WriteString("func otherLocStack() interface{} {\n\ttype loc struct{ A int32 }\n\treturn &g.Stack[loc]{}\n}\n\nfunc otherLocPair() interface{} {\n\ttype loc struct{ A int32 }\n\treturn g.MakePair(\"k\", loc{1})\n}\n\n")
+	// function-local types of one name but different structure as type arguments of another
+	// package's generics: each instance must use its own type (zero values, copies, fields)
+	b.WriteString(`func locProbeA() string {
+	type loc struct{ A int32 }
+	var s g.Stack[loc]
+	s.Push(loc{7})
+	s.Push(g.Zero[loc]())
+	x, _ := s.Pop()
+	y, _ := s.Pop()
+	p := g.MakePair("k", loc{3})
+	r := g.Relay(loc{5})
+	return lib.Itoa(int(x.A)) + lib.Itoa(int(y.A)) + lib.Itoa(int(p.Val.A)) + lib.Itoa(int(r.A)) + lib.Btoa(interface{}(r) == interface{}(loc{5}))
+}
+
+func locProbeB() string {
+	type loc struct {
+		B string
+		C [2]int8
+	}
+	var s g.Stack[loc]
+	s.Push(loc{"b", [2]int8{1, 2}})
+	s.Push(g.Zero[loc]())
+	x, _ := s.Pop()
+	y, _ := s.Pop()
+	p := g.MakePair("k", loc{"p", [2]int8{3, 4}})
+	r := g.Relay(loc{"r", [2]int8{5, 6}})
+	r2 := r
+	r2.C[0] = 9
+	return x.B + lib.Itoa(int(x.C[1])) + "|" + y.B + lib.Itoa(int(y.C[1])) + p.Val.B + lib.Itoa(int(p.Val.C[0])) + r.B + lib.Itoa(int(r.C[0])) + lib.Btoa(interface{}(r) == interface{}(loc{"r", [2]int8{5, 6}}))
+}
+
+func locProbeC() string {
+	type loc float64
+	var s g.Stack[loc]
+	s.Push(loc(1.5))
+	s.Push(g.Zero[loc]())
+	x, _ := s.Pop()
+	y, _ := s.Pop()
+	return g.ShowNum(float64(x)) + g.ShowNum(float64(y)) + g.ShowNum(float64(g.Relay(loc(2.5))))
+}
+
+`)
 	b.WriteString("func identity() {\n\ttype loc struct{ A int32 }\n\tvals := []interface{}{\n")
 	for _, v := range vals {
 		b.WriteString("\t\t" + v + ",\n")
@@ -695,6 +737,7 @@ func main() {
 	emit("tree", b.TreeOfA())
 	emit("sumMy", g.ShowNum(a.SumMy(30000, 30000))+g.ShowNum(a.WrapMy(181))+g.ShowNum(b.WrapMy(46341)))
 	emit("relayRec", describe(a.RelayRec(a.Rec{3, "r"})))
+	emit("locprobes", locProbeA()+" "+locProbeB()+" "+locProbeC()+" "+locProbeA())
 	emit("promoted", a.Promoted()+g.NameOf(a.Outer{"m", a.Base{9}})+g.Names([]*a.Outer2{{2, a.Outer{"n", a.Base{1}}}}))
 	emit("nonascii", g.NameOf(a.Vär)+g.NameOf(a.Maké(2))+lib.Itoa(a.Cö)+lib.Itoa(int(g.Relay(a.Maké(5)).V)))
 	ks := g.Keys(map[a.MyInt]string{3: "c", 1: "a", 2: "b"}, func(x, y a.MyInt) bool { return x < y })
